@@ -102,7 +102,11 @@ fn run_thread(sh: &Arc<Shared>, atomic: &GuestMemoryAtomic<M>, tid: usize, ops: 
             "update" => {
                 // lock; derive a new map from the CURRENT one; replace (store, then unlock)
                 annotate(sh, json!({"kind": "upd.begin"}));
-                let guard = atomic.lock().unwrap();
+                // (a predecessor may have died holding the lock: a poisoned mutex still hands out its guard)
+                let guard = match atomic.lock() {
+                    Ok(g) => g,
+                    Err(p) => p.into_inner(),
+                };
                 let cur = atomic.memory();
                 let o = observe(&cur);
                 updates += 1;
@@ -112,6 +116,19 @@ fn run_thread(sh: &Arc<Shared>, atomic: &GuestMemoryAtomic<M>, tid: usize, ops: 
                 drop(cur);
                 guard.replace(newmap);
                 annotate(sh, json!({"kind": "upd.end", "add": idx}));
+            }
+            "abort" => {
+                // an updater that dies while it holds the update lock
+                annotate(sh, json!({"kind": "upd.begin"}));
+                let _ = std::panic::catch_unwind(std::panic::AssertUnwindSafe(|| {
+                    let _guard = match atomic.lock() {
+                        Ok(g) => g,
+                        Err(p) => p.into_inner(),
+                    };
+                    annotate(sh, json!({"kind": "upd.abort.begin"}));
+                    panic!("induced: the updater dies while it holds the update lock");
+                }));
+                annotate(sh, json!({"kind": "upd.abort"}));
             }
             o => panic!("harness: unknown amap op {o}"),
         }
